@@ -278,6 +278,7 @@ func mainCheck(args []string) int {
 	dropped := map[string]bool{}
 	axioms := map[string]bool{}
 	pureExt := map[string]bool{}
+	skipped := map[string]bool{}
 	for _, sf := range suite.Funcs {
 		if _, ok := C.Funcs[sf.Key]; !ok {
 			return engineErr("suite names %s but no contract block exists for it", sf.Key)
@@ -326,6 +327,9 @@ func mainCheck(args []string) int {
 		for k := range x.pureExt {
 			pureExt[k] = true
 		}
+		for k := range x.skippedEnsures {
+			skipped[k] = true
+		}
 		for k := range x.detExt {
 			trusted["deterministic external function (uninterpreted): "+k] = true
 		}
@@ -365,11 +369,14 @@ func mainCheck(args []string) int {
 	covers := 0
 	exit := 0
 	var vioLines []string
+	var knownHit []string
 	report := func(o *Obligation, reason string) {
 		// known finding?
 		for _, f := range findings {
 			if f.kind == "finding" && f.property == id && f.obligation == o.Name {
 				fmt.Printf("KNOWN-FINDING: property=%s %s — %s\n", id, o.Name, f.text)
+				knownHit = append(knownHit, o.Name)
+				total-- // a recorded finding is not part of the proved set
 				return
 			}
 		}
@@ -538,6 +545,7 @@ func mainVC(args []string) int {
 	fmt.Println("pure externals (result havoced):", sortedKeys(x.pureExt))
 	fmt.Println("assumed contracts/models:", sortedKeys(x.trusted))
 	fmt.Println("dropped:", sortedKeys(x.dropped))
+	fmt.Println("callee clauses not usable at call sites (skipped):", sortedKeys(x.skippedEnsures))
 	var items []*oblItem
 	for _, o := range x.obls {
 		if len(args) > 2 && !strings.Contains(o.Name, args[2]) {
